@@ -451,7 +451,8 @@ func runC05(c *Ctx) {
 		c.R.Undecided("R05.2", "punctuationMappings table", "v2/tokenizer.go", "cannot read the table from the package initialiser")
 	} else {
 		c.R.Count("R05.2:rows", len(tab))
-		for _, d := range []string{"‒", "–", "—", "‐", "-"} {
+		// the ASCII hyphen, the Unicode hyphens and dashes U+2010..U+2015 and the minus sign
+		for _, d := range []string{"-", "\u2010", "\u2011", "\u2012", "\u2013", "\u2014", "\u2015", "\u2212"} {
 			c.R.Check(tab[d] == "-", "R05.2", fmt.Sprintf("punctuationMappings maps %q (U+%04X) to \"-\"", d, []rune(d)[0]), "v2/tokenizer.go", "row present", fmt.Sprintf("typographic dash %q is mapped to %q: replacing an ASCII hyphen by it changes the token", d, tab[d]))
 		}
 		for k, v := range tab {
